@@ -370,6 +370,8 @@ SPECIAL_FACTS = {
     "gammaincc": lambda ts, app: [z3.Implies(z3.And(ts[0] > 0, ts[1] >= 0), z3.And(app >= 0, app <= 1)),
                                   z3.Implies(z3.And(ts[0] > 0, ts[1] >= 0), app > 0)],
     "exp1": lambda ts, app: [z3.Implies(ts[0] > 0, app > 0)],
+    "inc_gamma_low": lambda ts, app: [z3.Implies(z3.And(ts[0] > 0, ts[1] >= 0), app >= 0)],
+    "loggamma": lambda ts, app: [],
     "expn": lambda ts, app: [z3.Implies(ts[1] > 0, app > 0)],
     "erf": lambda ts, app: [app > -1, app < 1, z3.Implies(ts[0] == 0, app == 0),
                             z3.Implies(ts[0] > 0, app > 0)],
@@ -429,6 +431,8 @@ def _facts_for(path, name, ts, app):
             F.append(z3.Implies(z3.And(t > -PI / 2, t < PI / 2), c > 0))
             F.append(z3.Implies(z3.And(t >= -PI / 2, t <= PI / 2), c >= 0))
             F.append(z3.Implies(z3.And(t >= 0, t <= PI), s >= 0))
+            F.append(z3.Implies(t >= 0, s <= t))          # sin t <= t for t >= 0
+            F.append(z3.Implies(t <= 0, s >= t))
             for (t2, c2, s2) in path.trig:
                 F.append(z3.Implies(t == t2, z3.And(c == c2, s == s2)))
                 F.append(z3.Implies(t == -t2, z3.And(c == c2, s == -s2)))
@@ -444,6 +448,8 @@ def _facts_for(path, name, ts, app):
         F.append(app > 0)
         F.append(z3.Implies(t == 0, app == 1))
         F.append(app >= 1 + t)
+        F.append(z3.Implies(t <= 0, app <= 1))
+        F.append(z3.Implies(t >= 0, app >= 1))
         for (t2, e2) in path.exps:
             F.append(z3.Implies(t < t2, app < e2))
             F.append(z3.Implies(t > t2, app > e2))
@@ -484,6 +490,8 @@ def _facts_for(path, name, ts, app):
         F.append(z3.Implies(x == 1, app == 1))
         F.append(z3.Implies(z3.And(x == 0, a > 0), app == 0))
         F.append(z3.Implies(x >= 0, app >= 0))
+        F.append(z3.Implies(z3.And(x >= 1, a <= 0), app <= 1))
+        F.append(z3.Implies(z3.And(x >= 0, x <= 1, a >= 0), app <= 1))
         F.append(z3.Implies(z3.And(x > 1, a > 0), app > 1))
         F.append(z3.Implies(z3.And(x > 0, x < 1, a > 0), app < 1))
         for (x2, a2, p2) in path.pows:
@@ -505,12 +513,20 @@ def _facts_for(path, name, ts, app):
         c = uf("cos", SymReal(app)).t
         F.append(z3.Implies(z3.And(t >= -1, t <= 1),
                             z3.And(app >= -PI / 2, app <= PI / 2, s == t, c >= 0)))
+        F.append(z3.Implies(t == 0, app == 0))
+        F.append(z3.Implies(t == 1, app == PI / 2))
+        F.append(z3.Implies(t == -1, app == -PI / 2))
     elif name == "arccos":
         t = ts[0]
         s = uf("sin", SymReal(app)).t
         c = uf("cos", SymReal(app)).t
         F.append(z3.Implies(z3.And(t >= -1, t <= 1),
                             z3.And(app >= 0, app <= PI, c == t, s >= 0)))
+        F.append(z3.Implies(t == 0, app == PI / 2))
+        F.append(z3.Implies(t == 1, app == 0))
+        F.append(z3.Implies(t == -1, app == PI))
+        F.append(z3.Implies(z3.And(t >= 0, t <= 1), app <= PI / 2))
+        F.append(z3.Implies(z3.And(t <= 0, t >= -1), app >= PI / 2))
     elif name == "arctan":
         t = ts[0]
         s = uf("sin", SymReal(app)).t
@@ -985,7 +1001,8 @@ class NpShim:
 def _mk_array_like(realfn):
     def f(obj, *a, **kw):
         dtype = kw.get("dtype", a[0] if a else None)
-        if symbolic_active() and _floaty(dtype) and is_sym(obj):
+        if symbolic_active() and _floaty(dtype) and (
+                is_sym(obj) or (isinstance(obj, _np.ndarray) and obj.dtype == object)):
             kw2 = {k: v for k, v in kw.items() if k not in ("dtype",)}
             a2 = a[1:] if a else a
             if realfn in (_np.asarray, _np.asanyarray):
